@@ -188,7 +188,32 @@ def judge(case) -> Verdict:
 
 
 @st.composite
+def embedded_pair_st(draw, tier):
+    """A derived (top, bottom) pair from the C03 generator (gap ports, related flag sets, groups under a
+    network, adjacent runs, large masks ...) embedded in an ACL with filler entries between them."""
+    from checks.c03 import pair_st
+
+    pair = draw(pair_st(tier))
+    platform = pair["platform"]
+    items = [{"t": "ace", "rec": G.to_native(pair["top"], platform)}]
+    for _ in range(draw(st.integers(0, 2))):
+        if draw(st.booleans()):
+            items.append({"t": "rem", "text": "x " + draw(G.remark_text_st()), "seq": 0})
+        else:
+            items.append({"t": "ace", "rec": G.to_native(draw(G.ace_st(platform, kmax=2, seq=False, noise=False)), platform)})
+    items.append({"t": "ace", "rec": G.to_native(pair["bottom"], platform)})
+    for it in items:
+        if it["t"] == "ace":
+            it["rec"]["seq"] = 0
+    G.normalise_groups(items)
+    acl = {"platform": platform, "name": "T", "type": "extended", "items": items, "prefix": "= ", "group_by": "", "indent": "  "}
+    return {"acl": acl, "skip": draw(st.sampled_from(A.SKIPS))}
+
+
+@st.composite
 def case_st(draw, tier):
+    if draw(st.sampled_from(range(3))) == 0:
+        return draw(embedded_pair_st(tier))
     acl = draw(G.acl_st(min_items=3, max_items=12, kmax=3, groups=True, members=True, seqs=True, empty_sets=True, native=True,
                         multi=True))
     case = {"acl": acl, "skip": draw(st.sampled_from(A.SKIPS))}
